@@ -37,6 +37,17 @@ pub fn parse_styles(opt: &cli::Opt) -> HashMap<String, Style> {
         .get_mut("plus-emph-style")
         .unwrap_or_else(|| panic!("plus-emph-style not found in resolved styles"))
         .is_emph = true;
+
+    // --color-only must emit lines in 1-1 correspondence with its input, so the
+    // *-decoration-style options are reset in set_options(). A decoration keyword (box, ul,
+    // ol, ...) inside the style string itself must not bring a decoration back.
+    if opt.color_only {
+        for name in ["commit-style", "file-style", "hunk-header-style"] {
+            if let Some(style) = resolved_styles.get_mut(name) {
+                style.decoration_style = style::DecorationStyle::NoDecoration;
+            }
+        }
+    }
     resolved_styles
 }
 
